@@ -87,6 +87,12 @@ type streamEndNotSupportedData struct {
 }
 
 func (s *stream) setOffset(vbID uint16, offset *models.Offset, dirty bool) {
+	if s.observers == nil {
+		// the stream is closed (for a rebalance, or for good): the offsets of the session this position
+		// belongs to are gone, and the regression check below would have nothing to compare it with
+		return
+	}
+
 	if s.vbIDRange.In(vbID) {
 		if current, ok := s.offsets.Load(vbID); ok && current.SeqNo > offset.SeqNo {
 			return
